@@ -182,6 +182,13 @@ void UniCompiler::hook_func() noexcept {
 
 void UniCompiler::unhook_func() noexcept {
   _func_init_hook = nullptr;
+
+  // Constants are materialized per function.
+  _common_table_ptr.reset();
+  _vec_consts.clear();
+  _vec_consts_ex.clear();
+  for (x86::KReg& k : _k_reg) k.reset();
+  for (Mem& m : _tmp_stack) m.reset();
 }
 
 // ujit::UniCompiler - Constants
